@@ -86,6 +86,23 @@ def run(ctx):
                     rep("H is not the sum over edges of +(i/2)J u at [k,j] and its negative at [j,k]"); continue
                 if not (np.array_equal(H, H.conj().T) and np.all(H.real == 0) and np.array_equal(H.T, -H)):
                     rep("H is not Hermitian / purely imaginary / antisymmetric"); continue
+                if trial == 0:
+                    # one value, many representations (dtype, layout, writability) of the bond / colouring / coupling arguments
+                    import variants
+                    for argname, base_arg in (("ujk", u), ("coloring", c), ("J", J)):
+                        if base_arg is None:
+                            continue
+                        for lab, av in variants.of_array(base_arg):
+                            keep = np.array(av).copy()
+                            args = dict(ujk=u, coloring=c, J=J); args[argname] = av
+                            try:
+                                Hv = ham.majorana_hamiltonian(l, args["coloring"], args["ujk"], args["J"])
+                            except Exception as ex:
+                                rep(f"majorana_hamiltonian raises {type(ex).__name__}: {ex} when {argname} is passed as {lab}", representation=lab); break
+                            if not np.array_equal(Hv, H):
+                                rep(f"majorana_hamiltonian changes when the same {argname} is passed as {lab}", representation=lab); break
+                            if not variants.untouched(lab, keep, av):
+                                rep(f"majorana_hamiltonian modified its {argname} argument ({lab})", representation=lab); break
                 ev = spectrum(H)
                 scale = max(1.0, np.abs(ev).max())
                 if not np.allclose(ev, -ev[::-1], atol=1e-9 * scale, rtol=0):
